@@ -535,5 +535,6 @@ pub proof fn lemma_C20_transitive_on_dags(g: Graph, roots: Set<String>, r: Seq<S
     lemma_dag_path_order(g, roots, r, p, p.len() - 1);
 }
 
+//@ AUTO-FREE-FNS
 } // verus!
 fn main() {}
